@@ -27,7 +27,7 @@ def run(ctx, res):
     res.ok("INT-ARITH", "signed-integer overflow asserts reachable from eval=%d (each is a PANIC-INV site above)" % n)
     if ctx.tier == "thorough":
         from .. import loops as LP
-        LP.run(ctx, res, reach)
+        LP.run(ctx, res, reach, defect_for=("value-depth",))
         stale = PI.stale_rows(ctx, LAYERS)
         for k in stale[:40]:
             res.note("stale residue row (matches no site in this layer): %s" % k)
